@@ -146,8 +146,20 @@ def run(ctx):
     k = ctx.pick(3, 4)
     n = sum(1 for _ in cases(k))
     ctx.explore('k<=%d' % k, cases(k), 'eval_case', chunk=256, space_size=n)
+    # every day number, alone and together with one companion field (the month boundaries of both year kinds)
+    yd = []
+    for field in ('yearday', 'nlyearday'):
+        for n in range(0, 368):
+            yd.append({field: n})
+            for comp in ({'years': 1}, {'years': -4}, {'year': 1900}, {'year': 2000}, {'days': 1}, {'leapdays': -1},
+                         {'weekday': (0, 1)}, {'weekday': (6, -1)}, {'months': 2}):
+                if ctx.thorough or n in (1, 31, 32, 58, 59, 60, 61, 90, 91, 181, 182, 243, 244, 304, 305, 334, 335, 336, 364, 365, 366):
+                    c = {field: n}
+                    c.update(comp)
+                    yd.append(c)
+    ctx.explore('every-day-number', yd, 'eval_case', chunk=64)
     ctx.coverage_extra.update({
-        'bounds': {'deviation_bound_k': k, 'operands': len(operands()), 'modes': ['add', 'sub']},
+        'bounds': {'deviation_bound_k': k, 'day_numbers': '0..367 for yearday and nlyearday, alone and with 9 companion fields', 'operands': len(operands()), 'modes': ['add', 'sub']},
         'rule': 'all constructor-field shapes with <= k non-default fields from the boundary menus x all operands x '
                 '{+,-}; non-trivial = at least one operand gives an in-range expected result',
         'menus': {k_: [str(x) for x in v] for k_, v in MENU.items()},
